@@ -350,6 +350,10 @@ def add_spec(self, u):
 
 
 class _add_base:
+    # used by totality proofs only (C17): past the ends of the calendar add()/subtract() raise ValueError (year out of
+    # range, from the constructor) or OverflowError (date value out of range, from timedelta arithmetic)
+    options = {"outside_domain_raises": {"result_representable": (ValueError, OverflowError)}}
+
     def requires(self, **u):
         w, f, ok, _ = add_spec(self, u)
         return [("self_zone_is_pendulum_or_naive", self.tzinfo is None or is_ptz(self.tzinfo)),
@@ -434,6 +438,8 @@ def _delegation(units_of, extra_requires=None):
     """contract clauses of a method that is add() applied to transformed arguments"""
 
     class base:
+        options = _add_base.options
+
         def requires(self, **a):
             u = units_of(**a)
             r = _add_base.requires(self, **u)
